@@ -37,6 +37,9 @@ func genGobValue(r *hx.RNG) *decimal.Decimal {
 	if r.Chance(15) {
 		x.SetPrec(x.Prec() + uint(r.Range(1, 100))) // precision much larger than the mantissa
 	}
+	if r.Chance(6) {
+		x.SetPrec(uint(0xFFFFFFFF) - uint(r.Range(0, 40))) // up to MaxPrec: a legitimate attribute (nothing is allocated by it)
+	}
 	return x
 }
 
